@@ -245,7 +245,7 @@ func init() {
 		rep.Assumptions = append([]string{"fairness = every progress transition (reconcile, kubelet forward/finish, cache delivery) that stays enabled is eventually taken; decided graph-theoretically: every bottom SCC of the progress graph must be a quiescent goal state",
 			"Failed/Succeeded pods never become Ready; under OrderedReady >=2 such pods outside the desired set are the premise failure the property names (excused, counted)"}, apiAssumptions...)
 		grids := c02Grids()
-		seeds := searchSeeds(grids)
+		seeds := append(searchSeeds(grids), c09ExtraSeeds(false)...)
 		D := 1
 		if explore.Tier() == "thorough" {
 			D = 2
